@@ -66,7 +66,7 @@ structure Placement where
   molToBlock : Dict2
   block : Mol
   refs : List (Int × Int)
-  deriving Repr, Inhabited
+  deriving Repr, DecidableEq, Inhabited
 
 def Placement.atoms (p : Placement) : List Int := p.molToBlock.map Prod.fst
 
